@@ -48,6 +48,50 @@ def restriction (cfg : PointCfg) (scopeClaims : List Str) (requested : Restr) : 
   let r2 := if cfg.byScope then upd r1 (scopeClaims.map (fun k => (k, Spec.any))) else r1
   upd r2 requested
 
+/-! ### which rules apply: the release point's own configuration or the client's -/
+
+/-- the release point's module configuration -/
+structure ModuleConf where
+  base : Restr
+  byScope : Bool                             -- add_claims_by_scope
+  always : List Str                          -- always_add_claims
+  perClient : Bool                           -- enable_claims_per_client
+  deriving Repr
+
+/-- the client's `add_claims`, looked up by release-point name -/
+structure ClientConf where
+  bsNonEmpty : Bool                          -- add_claims.by_scope is a non-empty dict
+  byScope : Str → Option Bool                -- add_claims.by_scope.get(point)
+  always : Str → List Str                    -- add_claims.always.get(point, [])
+
+/-- `get_claims_from_request` up to the choice of rules, with `_client_claims`: the secondary release
+    point (`as_if`: an ID token that stands in for userinfo, i.e. response_type id_token alone) only
+    adds the client's rules for that secondary point; without it nothing of another point applies -/
+def resolvePoint (m : ModuleConf) (cl : ClientConf) (point : Str) (secondary : Option Str) : PointCfg :=
+  if m.perClient then
+    let bs : Bool :=
+      if cl.bsNonEmpty then
+        match cl.byScope point with
+        | some v => v
+        | none =>
+          match secondary with
+          | some sec => (cl.byScope sec).getD false
+          | none => m.byScope
+      else m.byScope
+    let al := cl.always point ++ (match secondary with | some sec => cl.always sec | none => [])
+    { base := m.base, always := al, byScope := bs }
+  else { base := m.base, always := m.always, byScope := m.byScope }
+
+/-- which secondary point an ID token minted by the authorization endpoint uses: `userinfo` exactly when
+    the response type is `id_token` alone (there is then no way to reach the userinfo endpoint) -/
+def secondaryOf (point : Str) (rtIdTokenOnly : Bool) : Option Str :=
+  if point = Wire.lit "id_token" ∧ rtIdTokenOnly then some (Wire.lit "userinfo") else none
+
+/-- `Introspection.process_request`: the audience gate. The endpoint's setting, unless the requesting
+    client's record has one of its own; with enforcement the requester must be in the token's audience -/
+def audGate (endpointEnforce : Bool) (clientSetting : Option Bool) (inAud : Bool) : Bool :=
+  !(clientSetting.getD endpointEnforce) || inAud
+
 /-- `get_user_claims`: the attributes of the restriction the user has and that match -/
 def release (info : Str → Option Str) (r : Restr) : List (Str × Option Str) :=
   (r.filter (fun e => claimsMatch (info e.1) e.2)).map (fun e => (e.1, info e.1))
